@@ -198,3 +198,179 @@ pub fn new_scenario(prop: &str, family: &str, coin: &str) -> Scenario {
         params: serde_json::Value::Null,
     }
 }
+
+// ------------------------------------------------------------------ rich shapes (C01, C12, C13 …)
+
+pub const BOUNDARY_LENS: [usize; 10] = [0, 1, 2, 75, 76, 252, 253, 254, 255, 256];
+pub const BIG_LENS: [usize; 6] = [65535, 65536, 65537, 20000, 40000, 100000];
+
+pub fn canonical_script(coin: &str, rng: &mut Rng) -> Vec<u8> {
+    let btc = coin == "bitcoin" || coin == "testnet3";
+    let k = rng.below(if btc { 10 } else { 6 });
+    match k {
+        0 | 1 => p2pkh(&rng.bytes(20)),
+        2 => p2sh(&rng.bytes(20)),
+        3 => {
+            let c = rng.coin();
+            p2pk(&fake_pubkey(rng, c))
+        }
+        4 => {
+            let n = rng.usize(1, 40);
+            op_return(&rng.bytes(n).iter().map(|b| b'a' + (b % 26)).collect::<Vec<u8>>())
+        }
+        5 => {
+            let keys: Vec<Vec<u8>> = (0..3).map(|_| fake_pubkey(rng, true)).collect();
+            multisig(2, &keys, 3)
+        }
+        6 => witness_prog(0, &rng.bytes(20)),
+        7 => witness_prog(0, &rng.bytes(32)),
+        8 => witness_prog(1, &rng.bytes(32)),
+        _ => {
+            let v = rng.range(2, 16) as u8;
+            let n = rng.usize(2, 40);
+            witness_prog(v, &rng.bytes(n))
+        }
+    }
+}
+
+pub struct TxShape {
+    pub max_in: usize,
+    pub max_out: usize,
+    pub boundary: bool,
+    pub big: bool,
+    pub segwit_ok: bool,
+    pub random_scripts: bool,
+    /// arbitrary u64 output values (totals may pass 2^64: only for csvdump-only worlds)
+    pub edge_values: bool,
+}
+
+fn pick_len(rng: &mut Rng, sh: &TxShape, small_max: usize) -> usize {
+    if sh.big && rng.chance(1, 40) {
+        *rng.pick(&BIG_LENS)
+    } else if sh.boundary && rng.chance(1, 6) {
+        *rng.pick(&BOUNDARY_LENS)
+    } else {
+        rng.usize(0, small_max)
+    }
+}
+
+fn pick_count(rng: &mut Rng, sh: &TxShape, max: usize) -> usize {
+    if sh.boundary && rng.chance(1, 25) {
+        *rng.pick(&[0xfcusize, 0xfd, 0xfe])
+    } else {
+        rng.usize(1, max.max(1))
+    }
+}
+
+pub fn rich_tx(coin: &str, rng: &mut Rng, sh: &TxShape) -> TxDesc {
+    let segwit = sh.segwit_ok && rng.chance(1, 3);
+    let n_in = pick_count(rng, sh, sh.max_in);
+    let n_out = pick_count(rng, sh, sh.max_out);
+    let mut inputs = Vec::with_capacity(n_in);
+    for _ in 0..n_in {
+        let ss_len = pick_len(rng, sh, 110);
+        let mut witness = vec![];
+        if segwit {
+            let items = if sh.boundary && rng.chance(1, 30) { *rng.pick(&[0usize, 1, 252, 253]) } else { rng.usize(0, 4) };
+            for _ in 0..items {
+                let l = if items > 10 { rng.usize(0, 3) } else { pick_len(rng, sh, 80) };
+                witness.push(Bytes(rng.bytes(l)));
+            }
+        }
+        inputs.push(InDesc {
+            prev_txid: Bytes(rng.bytes(32)),
+            prev_index: rng.u32_edge(),
+            script_sig: Bytes(rng.bytes(ss_len)),
+            sequence: rng.u32_edge(),
+            witness,
+        });
+    }
+    let mut outputs = Vec::with_capacity(n_out);
+    for _ in 0..n_out {
+        let script = if sh.random_scripts && rng.chance(1, 3) {
+            let l = pick_len(rng, sh, 60);
+            let mut s = rng.bytes(l);
+            // keep the model certain about fork no-op subtleties: nothing to do, address column is not judged there
+            if !s.is_empty() && rng.chance(1, 4) {
+                s[0] = 0x6a;
+            }
+            s
+        } else {
+            canonical_script(coin, rng)
+        };
+        outputs.push(OutDesc {
+            value: if sh.edge_values { rng.u64_edge() } else { rng.log_range(1, 20_000_000_000_000) * (rng.below(8) != 0) as u64 },
+            script: Bytes(script),
+        });
+    }
+    TxDesc {
+        version: rng.u32_edge(),
+        segwit,
+        inputs,
+        outputs,
+        locktime: rng.u32_edge(),
+    }
+}
+
+pub fn random_auxpow(coin: &str, rng: &mut Rng, sh: &TxShape) -> AuxPowDesc {
+    let branch = |rng: &mut Rng| {
+        let n = *rng.pick(&[0usize, 0, 1, 2, 3, 5, 8, 32, 33]);
+        MerkleBranchDesc {
+            hashes: (0..n).map(|_| Bytes(rng.bytes(32))).collect(),
+            mask: rng.u32_edge(),
+        }
+    };
+    let mut cb = rich_tx(coin, rng, sh);
+    cb.inputs.truncate(3);
+    cb.outputs.truncate(4);
+    AuxPowDesc {
+        coinbase_tx: cb,
+        parent_hash: Bytes(rng.bytes(32)),
+        coinbase_branch: branch(rng),
+        chain_branch: branch(rng),
+        parent_header: Bytes(rng.bytes(80)),
+    }
+}
+
+/// version field respecting the coin's AuxPoW rule: returns (version, needs_auxpow)
+pub fn pick_version(coin: &str, rng: &mut Rng, arbitrary: bool) -> (u32, bool) {
+    let thr = coin_params(coin).auxpow_version;
+    let v = if arbitrary {
+        match rng.below(6) {
+            0 => rng.u32_edge(),
+            1 => 0x2000_0000 | (rng.next() as u32 & 0x1fff_ffff),
+            2 => thr.unwrap_or(0x10101),
+            3 => thr.unwrap_or(0x10101).wrapping_sub(1),
+            4 => thr.unwrap_or(0x10101).wrapping_add(rng.below(1000) as u32),
+            _ => rng.range(1, 4) as u32,
+        }
+    } else {
+        rng.range(1, 4) as u32
+    };
+    (v, thr.map(|t| v >= t).unwrap_or(false))
+}
+
+pub fn rich_block(coin: &str, h: u64, n_tx: usize, rng: &mut Rng, sh: &TxShape, arbitrary_header: bool) -> BlockDesc {
+    let (version, aux) = pick_version(coin, rng, arbitrary_header);
+    let mut txs = Vec::with_capacity(n_tx);
+    // first tx: coinbase with at least one output (simplestats reads outputs[0])
+    let mut cb = rich_tx(coin, rng, sh);
+    cb.inputs = vec![coinbase_input(h, rng)];
+    if cb.segwit {
+        cb.inputs[0].witness = vec![Bytes(vec![0; 32])];
+    }
+    txs.push(cb);
+    for _ in 1..n_tx {
+        txs.push(rich_tx(coin, rng, sh));
+    }
+    BlockDesc {
+        version,
+        prev: None,
+        merkle: None,
+        time: if arbitrary_header { rng.u32_edge().max(1) } else { 1_400_000_000 + h as u32 * 600 },
+        bits: if arbitrary_header { rng.u32_edge() } else { 0x1d00ffff },
+        nonce: rng.u32_edge(),
+        auxpow: if aux { Some(random_auxpow(coin, rng, sh)) } else { None },
+        txs,
+    }
+}
